@@ -68,7 +68,7 @@ func checkC05(c c05Case, pick picker, picks *[]int) (*ev.Failure, c05Stats) {
 	dir := newDir()
 	defer os.RemoveAll(dir)
 	if len(b.Subsets) > 0 && len(u.names) > 0 {
-		keep := resolveSubset(b.Subsets[0], len(u.names))
+		keep := resolveSubset(b.Subsets[0], u.names)
 		files := map[string][]byte{}
 		hashes := moduleHashes(b.Prog)
 		for i, rel := range u.names {
@@ -365,8 +365,9 @@ func checkC05(c c05Case, pick picker, picks *[]int) (*ev.Failure, c05Stats) {
 		if !c.LateInside {
 			late.ReleaseAll() // reads still in flight complete before the stores are handed to the linear part
 		} // else they are still in flight when the stores are handed over (completed by the deferred ReleaseAll)
-		st.lateHeld = late.Held
-		for k, v := range late.Seen {
+		held, seen := late.Stats()
+		st.lateHeld = held
+		for k, v := range seen {
 			ev.Get("C05", "Schedules").Count("squasher-"+k, v)
 		}
 	}
@@ -478,6 +479,10 @@ func genC05(t *rapid.T) c05Case {
 		if base.Run.Stop <= base.Run.Start {
 			base.Run.Stop = base.Run.Start + 1
 		}
+	}
+	if len(base.Subsets) > 0 && rapid.Bool().Draw(t, "dirwise") {
+		// whole directories kept or gone: e.g. the snapshots of an upper stage present and those of a lower stage absent
+		base.Subsets = [][]int{{-100000 - rapid.IntRange(0, 1<<16-1).Draw(t, "c05dirmask")}}
 	}
 	base.Run.Workers = rapid.IntRange(1, 3).Draw(t, "c05workers")
 	c := c05Case{Base: base, Split: rapid.Bool().Draw(t, "split")}
